@@ -83,6 +83,17 @@ def rule_templates():
     add([("a", "Str")], body="\tvar out string = fmt.Sprint(a)\n\treturn out + fx()")
     add(I2, body="\txs := []int{1, 2, 3}\n\txs[g()%3] = xs[g()%3] + 1\n\treturn fmt.Sprint(xs, fx())")
     add([("ip", "*int")], body="\t*ip = *ip + 1\n\treturn fmt.Sprint(*ip, fx())")
+    add([("c", "Code")], expr='fmt.Sprint(c) + "x"')
+    add([("c", "Code")], expr="len(fmt.Sprintf(\"%s\", c))")
+    add([("c", "Code")], expr='strings.ToUpper(fmt.Sprintf("%v", c))')
+    add([("c", "Code")], expr="fmt.Sprint(c)")
+    add([("c", "Code")], expr='fmt.Sprintf("%s", c)')
+    add([("c", "Code")], expr='fmt.Sprintf("%v", c)')
+    # boolean combinations over floats (NaN) and over defined float types
+    for e in ("p < q || p > q", "p > q || p < q", "p < q || p == q", "p > q || p == q", "!(p < q)", "!(p == q)", "p < q && p > q", "p <= q && p >= q"):
+        add(F2, expr=e)
+    for e in ("a < b || a > b", "!(a < b)", "a+1 > b", "a > 0 && a <= 1"):
+        add([("a", "Fl"), ("b", "Fl")], expr=e)
     # emptyStringTest / sloppyLen
     for e in ("len(s) == 0", "len(s) != 0", "len(s) > 0", "len(s) >= 1", "len(s) < 1", "len(s) <= 0", "len(gs()) == 0", "len(s+t) == 0"):
         add(S2, expr=e)
